@@ -22,10 +22,10 @@ import vlib
 LEVEL = "model_checking"
 
 SRCS = ["replay_pump.c", "vloop.c", "lib/upipe/upump_common.c", "lib/upump-ev/upump_ev.c"]
-LIBS = ["-lev"]
-ACTIONS = ["Start", "Stop", "Restart", "SetStatus", "GetStatus", "BlockerAlloc",
+LIBS = ["-lev", "-Wl,--wrap=malloc"]
+ACTIONS = ["Start", "Stop", "Restart", "SetStatus", "GetStatus", "BlockerAlloc", "BlockerAllocRefused",
            "BlockerFree", "Dispatch", "Poll", "Free"]
-NEG = [("bfree_no_restart", "ActiveIff"), ("start_ignores_blockers", "ActiveIff"),
+NEG = [("allocfail_stops", "ActiveIff"), ("bfree_no_restart", "ActiveIff"), ("start_ignores_blockers", "ActiveIff"),
        ("free_skips_notify", "FreeNotifiesAll"), ("fire_when_blocked", "NoCallbackWhenInactive")]
 BACKENDS = ["vloop", "ev"]
 KINDS = ["idler", "fd", "timer", "oneshot"]
@@ -36,7 +36,7 @@ ENV = {"ASAN_OPTIONS": "detect_leaks=0:abort_on_error=0", "UBSAN_OPTIONS": "prin
 # ----------------------------------------------------------------- harness i/o
 def cmd_text(c):
     op = c["op"]
-    if op in ("status", "balloc", "bfree"):
+    if op in ("status", "balloc", "bfree", "ballocfail"):
         return "%s %d" % (op, c["arg"])
     if op in ("poll", "poll2"):
         return op + " " + c["act"]
@@ -284,8 +284,10 @@ def gen_script(rng, be, kind, n):
             c = "status %d" % rng.below(2)
         elif r < 40:
             c = "getstatus"
-        elif r < 57:
+        elif r < 54:
             c = "balloc %d" % (1 + rng.below(3))
+        elif r < 57:
+            c = "ballocfail %d" % (1 + rng.below(3))
         elif r < 75:
             c = "bfree %d" % (1 + rng.below(3))
         elif r < 94:
@@ -317,7 +319,7 @@ def to_history(script, out):
         ov, od, alive = split_obs(line)
         d = dict(x.split("=") for x in ov.split())
         h.append({"e": f[0],
-                  "arg": int(f[1]) if f[0] in ("status", "balloc", "bfree") else 0,
+                  "arg": int(f[1]) if f[0] in ("status", "balloc", "bfree", "ballocfail") else 0,
                   "act": f[1] if f[0] in ("poll", "poll2") else "none",
                   "a": -1 if d["a"] == "-" else int(d["a"]),
                   "fired": int(d["fired"]),
